@@ -90,7 +90,7 @@ def read_next(built):
     return out
 
 
-def sym_init(M, built, symtype, symvals=None, vals=None, prefix=""):
+def sym_init(M, built, symtype, symvals=None, vals=None, prefix="", shuffle_keys=None):
     """Creates one symbol per declared variable and returns (init_conditions, syms)
     where syms = {id: {name: symbol}}.  Registers the values in symvals."""
     import casadi as cs
@@ -108,8 +108,12 @@ def sym_init(M, built, symtype, symvals=None, vals=None, prefix=""):
                 if symvals is not None and vals is not None:
                     symvals.set(sname, vals[eid][name])
         if d:
-            ic[built.el(eid)] = d
             syms[eid] = d
+            if shuffle_keys is not None:
+                ks = list(d)
+                shuffle_keys.shuffle(ks)
+                d = {k_: d[k_] for k_ in ks}
+            ic[built.el(eid)] = d
     return ic, syms
 
 
